@@ -4,6 +4,7 @@ import Ptn.C01.Enum
 import Ptn.C01.Compress
 import Ptn.C01.Cut
 import Ptn.C01.Fill
+import Ptn.C01.Value
 /-! Property theorems for C01 (Hamiltonian → state diagram → operator is exact).  Only property theorems
 and non-vacuity examples live here; helper lemmas are in `Lemmas.lean`.
 
@@ -316,6 +317,55 @@ theorem base_ttno_exact (dimOf : String → Nat) (t : RTree) (tm : Term) (rest :
     rw [(ttno_structure dimOf _ T hT).2, fl]
     exact asg_dims dimOf tm.ops t htab
 
+/-! ### Value level: labels ↦ matrices over a commutative semiring
+
+`Interp R` gives every label a matrix `op i l`, every symbol a scalar and embeds the prefactors
+multiplicatively; `fsumVal I o n fs` is the entry `[o, n]` (one out- and one in-index per site) of the
+formal sum, `Σ_terms coeff · Π_sites A_{term,site}[o_site, n_site]`; `treeVal` contracts the scalar
+tensors `W_i[pv, kv, o_i, n_i]` (`cellVal`) of the filled TTNO one bond at a time, `nodeLeaf` /
+`treeBinds` / `treeLeaves` present the same tensors as a flat network of `Ptn.Ein`. -/
+
+/-- **All trees, nested sums**: for every diagram on which the filling succeeds and every interpretation
+    in every commutative semiring, contracting the filled tensors bond by bond (children first) gives,
+    entry by entry, the value of the diagram's denotation. -/
+theorem ttno_nested_value {R : Type} [CommSemiring R] (I : Interp R) (dimOf : String → Nat) (d : SD)
+    (T : TTNO) (h : fillTTNO dimOf d = some T) (o n : Nat → Nat) :
+    treeVal I o n T none = fsumVal I o n (sdDenote d) := by
+  rw [treeVal_eq]
+  exact fsumVal_perm I o n (fill_contract_eq_denote dimOf d T h).1
+
+/-- **All trees, all Hamiltonians (uncompressed method)**: the TTNO built from a non-empty Hamiltonian
+    contracts, entry by entry, to `Σ_k c_k γ_k Π_sites A_{k,site}[o_site, n_site]` of the padded terms. -/
+theorem base_ttno_value {R : Type} [CommSemiring R] (I : Interp R) (dimOf : String → Nat) (t : RTree)
+    (tm : Term) (rest : List Term) :
+    ∃ d T, baseDiagram t (tm :: rest) = some d ∧ fillTTNO dimOf d = some T ∧
+      ∀ o n : Nat → Nat, treeVal I o n T none = hamVal I o n t (tm :: rest) := by
+  obtain ⟨d, T, hd, hT, hp, _⟩ := base_ttno_exact dimOf t tm rest
+  refine ⟨d, T, hd, hT, fun o n => ?_⟩
+  rw [treeVal_eq, ← fsumVal_hamDenote]
+  exact fsumVal_perm I o n hp
+
+/-- **Two-node tree, flat network** (`…_partial`: the general tree is stated only in the nested form
+    `ttno_nested_value`; what is missing is the induction that turns `sumPairs` over all tree bonds into
+    the nested sums).  The `Ptn.Ein.netValue` of the two filled tensors over their single bond, as a
+    function of all (out, in) indices, is the entrywise value of the diagram's denotation. -/
+theorem ttno_network_value_two_node_partial {R : Type} [CommSemiring R] (I : Interp R)
+    (dimOf : String → Nat) (i nv c nv' : Nat) (hes hes' : List HE) (T : TTNO)
+    (h : fillTTNO dimOf (.node i nv hes [.node c nv' hes' []]) = some T)
+    (dim : Leg → Nat) (hd : dim (.dn c) = nv') (σ : Ptn.Ein.Asg Leg) :
+    Ptn.Ein.netValue dim (treeBinds T) (treeLeaves I T) σ =
+      fsumVal I (fun j => σ (.out j)) (fun j => σ (.inn j))
+        (sdDenote (.node i nv hes [.node c nv' hes' []])) := by
+  rw [← ttno_nested_value I dimOf _ T h]
+  obtain ⟨h0, rest, ks, _, hks, _, rfl⟩ := fillAt_some dimOf true i nv hes _ T h
+  obtain ⟨a, as, ha, has, rfl⟩ := fillKids_some dimOf _ _ ks hks
+  rw [fillKids_nil] at has
+  cases has
+  obtain ⟨g0, grest, ks', _, hks', _, rfl⟩ := fillAt_some dimOf false c nv' hes' [] a ha
+  rw [fillKids_nil] at hks'
+  cases hks'
+  exact two_node_netValue I i c nv' _ _ _ _ dim hd σ
+
 /-! ### Non-vacuity: concrete instances -/
 
 -- `exTree`, `exT1`, `exT2` (a branched tree with a dimension-1 node and two terms) are defined in `Lemmas.lean`.
@@ -382,5 +432,25 @@ example : ((baseDiagram exTree [exT1, exT2]).map fun d => ((choices d).length, (
 -- (vertex 1 toward the child, but the child's only hyperedge sits on vertex 0) denotes nothing
 example : sdDenote (.node 0 0 [⟨"A", 1, "1", none, [1]⟩] [.node 1 2 [⟨"B", 1, "1", some 0, []⟩] []]) = [] := by
   decide +kernel
+
+-- value level: the interpretation `exInterp` (over ℚ) and the assignment `exSigma` are defined in `Value.lean`.
+-- `ttno_network_value_two_node_partial` on the diagram where two hyperedges share one tensor position: the
+-- hypotheses hold (the filling succeeds, the bond leg has dimension 2) and the value is a non-trivial number
+example : (fillTTNO (fun _ => 2) (.node 0 0 [⟨"A", 2, "g", none, [0]⟩, ⟨"B", 3, "1", none, [0]⟩, ⟨"C", 1, "1", none, [1]⟩]
+      [.node 1 2 [⟨"X", 1, "1", some 0, []⟩, ⟨"Y", 5, "h", some 1, []⟩] []])).isSome = true ∧
+    legDim (fun _ => 2) (fun _ => 2) (.dn 1) = 2 := by decide +kernel
+
+example : fsumVal exInterp (fun j => exSigma (.out j)) (fun j => exSigma (.inn j))
+    (sdDenote (.node 0 0 [⟨"A", 2, "g", none, [0]⟩, ⟨"B", 3, "1", none, [0]⟩, ⟨"C", 1, "1", none, [1]⟩]
+      [.node 1 2 [⟨"X", 1, "1", some 0, []⟩, ⟨"Y", 5, "h", some 1, []⟩] []])) = 272 := by decide +kernel
+
+-- … and the flat network of the filled tensors evaluates to the same number
+example : (fillTTNO (fun _ => 2) (.node 0 0 [⟨"A", 2, "g", none, [0]⟩, ⟨"B", 3, "1", none, [0]⟩, ⟨"C", 1, "1", none, [1]⟩]
+      [.node 1 2 [⟨"X", 1, "1", some 0, []⟩, ⟨"Y", 5, "h", some 1, []⟩] []])).map
+    (fun T => Ptn.Ein.netValue (legDim (fun _ => 2) (fun _ => 2)) (treeBinds T) (treeLeaves exInterp T) exSigma) =
+    some 272 := by decide +kernel
+
+-- `base_ttno_value` instance: the value of the two-term Hamiltonian on the branched example tree
+example : hamVal exInterp (fun j => j + 1) (fun j => 2 * j) exTree [exT1, exT2] = -32490 := by decide +kernel
 
 end Ptn.C01
